@@ -94,7 +94,7 @@ package backends
 //@ func (*GCSCache).Get(gcs, ctx, path, key) (r, err)
 //@   modifies gcsReads, gcsLastReadOK, gcsLastReader, gcsLastReaderCtx, cancelCalls
 //@   ensures [one_download_handed_out_as_it_is] gcsReads == old(gcsReads) + 1 && (err == nil <==> gcsLastReadOK) && (err == nil ==> ref(r) == gcsLastReader)
-//@   ensures [download_outlives_get] err == nil ==> gcsLastReaderCtx == ref(ctx) || cancelCalls == old(cancelCalls)
+//@   ensures [download_outlives_get] err == nil ==> gcsLastReaderCtx == old(ref(ctx)) || cancelCalls == old(cancelCalls)
 //@   before_call Bucket#1 [same_bucket] arg1 == gcs.bucketName
 //@   before_call Object#1 [same_object] arg1 == ite(gcs.prefix == "", gcs.workspacePrefix, gcs.prefix + "/" + gcs.workspacePrefix) + "/" + trimChars(path, "/") + "/" + trimChars(key, "/")
 
